@@ -78,7 +78,13 @@ def training_data(spec):
     if k == 'uni':
         return None if spec[2] is None else uni.dataset(spec[2])
     if k == 'gm' or k == 'vine':
-        return None if spec[2] is None else tables.gaussian_copula_table(spec[2])[0]
+        if spec[2] is None:
+            return None
+        if spec[2][0] == 'ndarray':
+            df = tables.gaussian_copula_table(tuple(spec[2][1:]))[0]
+            df.columns = list(range(df.shape[1]))          # what a model fitted on the bare array calls its columns
+            return df
+        return tables.gaussian_copula_table(spec[2])[0]
     return None
 
 
